@@ -6,9 +6,11 @@ import (
 	"bytes"
 	"compress/gzip"
 	"crypto/sha256"
+	"encoding/binary"
 	"encoding/json"
 	"fmt"
 	"github.com/google/pprof/internal/report"
+	"github.com/google/pprof/verif/internal/legacy"
 	"github.com/google/pprof/verif/internal/sess"
 	"io"
 	"math/rand"
@@ -569,6 +571,57 @@ func runSameWrite(c *harness.Ctx) harness.Result {
 	return res
 }
 
+// part reparse: parsing is a function of the bytes: a legacy document (any family; and binary CPU
+// profiles of one to four samples, where pprof's signal-frame heuristic looks at every sample)
+// parsed thirty times gives thirty equal profiles.
+func runReparse(c *harness.Ctx) harness.Result {
+	r := c.Rng
+	var doc []byte
+	kind := "legacy document"
+	if r.Intn(2) == 0 {
+		doc, kind = legacy.RandomDoc(r)
+	} else {
+		kind = "binary cpu profile"
+		var b bytes.Buffer
+		w := func(vs ...uint64) {
+			for _, v := range vs {
+				binary.Write(&b, binary.LittleEndian, v)
+			}
+		}
+		w(0, 3, 0, 10000, 0)
+		for i, n := 0, 1+r.Intn(4); i < n; i++ {
+			depth := 2 + r.Intn(3)
+			w(uint64(1+r.Intn(5)), uint64(depth))
+			for j := 0; j < depth; j++ {
+				w(0x400000 + uint64(r.Intn(6))*0x10)
+			}
+		}
+		w(0, 1, 0)
+		b.WriteString("00400000-00500000 r-xp 00000000 00:00 0 /bin/prog\n")
+		doc = b.Bytes()
+	}
+	res := harness.Result{NonTrivial: true, Sig: fmt.Sprintf("reparse %s %x", kind, sha256.Sum256(doc)), Sample: kind}
+	first := ""
+	for k := 0; k < 30; k++ {
+		p, err := profile.ParseData(doc)
+		got := ""
+		if err != nil {
+			got = "error: " + err.Error()
+		} else {
+			got = p.String()
+		}
+		c.Stat("reparses", 1)
+		if k == 0 {
+			first = got
+		} else if got != first {
+			res.Verdict = harness.Violated
+			res.Detail = fmt.Sprintf("the same %s (%d bytes) parsed again (attempt %d) gives another profile\n%s\ndocument: %q", kind, len(doc), k+1, firstDiff([]byte(first), []byte(got)), harness.Trunc(string(doc), 600))
+			return res
+		}
+	}
+	return res
+}
+
 func runSession(c *harness.Ctx) harness.Result {
 	r := c.Rng
 	p := TieProfile(r)
@@ -799,6 +852,7 @@ func init() {
 			{Name: "fetchorder", Quick: 100, Thor: 5000, Run: runFetchOrder},
 			{Name: "bigdot", Quick: 60, Thor: 3000, Run: runBigDot},
 			{Name: "samewrite", Quick: 60, Thor: 3000, Run: runSameWrite},
+			{Name: "reparse", Quick: 400, Thor: 20000, Run: runReparse},
 		},
 		MinNonTrivial: func(string) int { return 300 },
 	})
